@@ -260,6 +260,30 @@ impl Monitor for C12 {
                     if pino_ev != anchor_out.events {
                         fail(acc, "events", format!("event bytes differ: pinocchio {} events, anchor {} events", pino_ev.len(), anchor_out.events.len()));
                     }
+                    // the caller's maxima / minima: both routes must draw the line at the same amounts. One pair in four is
+                    // re-run on both routes with the limits set to what the owner actually paid / received, and one unit tighter
+                    if obs.ix.data.len() >= 40 && w.r.gen_range(0..4) == 0 {
+                        let inc = name.starts_with("increase");
+                        let (ka, kb) = (obs.ix.key("token_owner_account_a"), obs.ix.key("token_owner_account_b"));
+                        if ka != kb {
+                            let bal = |bk: &crate::svm::Bank, k: &solana_program::pubkey::Pubkey| bk.data(k).map(codec::token_amount).unwrap_or(0);
+                            let moved = |k: &solana_program::pubkey::Pubkey| if inc { bal(&obs.pre, k).saturating_sub(bal(&w.bank, k)) } else { bal(&w.bank, k).saturating_sub(bal(&obs.pre, k)) };
+                            let (a, bq) = (moved(&ka), moved(&kb));
+                            let tighter = |x: u64| if inc { x.checked_sub(1) } else { x.checked_add(1) };
+                            for (x, y) in [(Some(a), Some(bq)), (tighter(a), Some(bq)), (Some(a), tighter(bq))] {
+                                let (Some(x), Some(y)) = (x, y) else { continue };
+                                let mut probe = obs.ix.clone();
+                                probe.data[24..32].copy_from_slice(&x.to_le_bytes());
+                                probe.data[32..40].copy_from_slice(&y.to_le_bytes());
+                                let (po, _) = w.simulate(&obs.pre, &probe);
+                                let ao = w.svm.simulate_route(&obs.pre, &probe.instruction(), &probe.signers(), true);
+                                acc.count("route_limit_probes");
+                                if po.ok() != ao.ok() {
+                                    fail(acc, "limit_outcome", format!("limits ({x}, {y}) with the owner moving ({a}, {bq}): pinocchio route ok={} ({:?}), anchor route ok={} ({:?})", po.ok(), po.err, ao.ok(), ao.err));
+                                }
+                            }
+                        }
+                    }
                 }
                 (false, false) => {
                     acc.count("route_pairs_both_err");
